@@ -5,6 +5,7 @@ pub mod c12;
 pub mod c21;
 pub mod c23;
 pub mod c35;
+pub mod c39;
 
 use crate::harness::Property;
 
@@ -17,8 +18,9 @@ pub fn get(id: &str) -> Option<&'static dyn Property> {
         "C21" => Some(&c21::C21),
         "C23" => Some(&c23::C23),
         "C35" => Some(&c35::C35),
+        "C39" => Some(&c39::C39),
         _ => None,
     }
 }
 
-pub const ALL_IDS: &[&str] = &["C01", "C02", "C10", "C12", "C21", "C23", "C35"];
+pub const ALL_IDS: &[&str] = &["C01", "C02", "C10", "C12", "C21", "C23", "C35", "C39"];
